@@ -17,6 +17,7 @@ import (
 
 	"bytes"
 	"crypto/ecdsa"
+	crand "crypto/rand"
 	"crypto/ed25519"
 	"crypto/elliptic"
 	"crypto/sha256"
@@ -38,8 +39,10 @@ import (
 	kmscomp "github.com/hyperledger/aries-framework-go/component/kmscrypto/kms"
 	"github.com/hyperledger/aries-framework-go/component/kmscrypto/kms/localkms"
 	"github.com/hyperledger/aries-framework-go/component/kmscrypto/secretlock/local"
+	"github.com/hyperledger/aries-framework-go/component/kmscrypto/secretlock/noop"
 	"github.com/hyperledger/aries-framework-go/component/kmscrypto/secretlock/local/masterlock/hkdf"
 	"github.com/hyperledger/aries-framework-go/component/kmscrypto/secretlock/local/masterlock/pbkdf2"
+	"github.com/hyperledger/aries-framework-go/component/kmscrypto/util/cryptoutil"
 	kmsapi "github.com/hyperledger/aries-framework-go/spi/kms"
 	"github.com/hyperledger/aries-framework-go/spi/secretlock"
 )
@@ -555,6 +558,40 @@ func kmsRun(input string, c06 bool) string {
 				returns = append(returns, []byte(id))
 				o = "ok"
 			}
+		case "box":
+			// the legacy packers' CryptoBox over this key manager: seal to / open with the newest live Ed25519 key whose id is
+			// its thumbprint (the box finds the key by that id). "ok" unless the box fails on such a key; what matters for
+			// C05 is what the key manager writes AFTER the box has been used
+			o = "ok"
+			for i := len(keys) - 1; i >= 0; i-- {
+				key := keys[i]
+				if !key.live || strings.Split(key.kt, "/")[0] != "ed25519" {
+					continue
+				}
+				pub := key.pub
+				if pub == nil {
+					pub, _, _ = k.ExportPubKeyBytes(key.id)
+				}
+				if want, e := jwkkid.CreateKID(pub, kmsapi.ED25519Type); e != nil || want != key.id {
+					continue
+				}
+				cb, e := localkms.NewCryptoBox(k)
+				noteErr(e)
+				if e != nil {
+					o = "err"
+					break
+				}
+				encPub, e := cryptoutil.PublicEd25519toCurve25519(pub)
+				noteErr(e)
+				ct, e := cb.Seal([]byte("box payload"), encPub, crand.Reader)
+				noteErr(e)
+				pt, e := cb.SealOpen(ct, pub)
+				noteErr(e)
+				if e != nil || string(pt) != "box payload" {
+					o = "err"
+				}
+				break
+			}
 		case "rotate", "get", "export":
 			i, _ := strconv.Atoi(f[1])
 			if i >= len(keys) {
@@ -727,6 +764,19 @@ func kmsRun(input string, c06 bool) string {
 				}
 			}
 		}
+		// ... nor may a key manager that has NO master key (the no-op lock): a keyset whose data key was stored unwrapped
+		// opens with it
+		if wrong == "allfail" {
+			st2 := &recKMSStore{data: st.data, freezeAt: -1}
+			if k2, e2 := localkms.New("local-lock://verif", kmsProv{st2, &noop.NoLock{}}); e2 == nil {
+				for _, key := range keys {
+					if _, e := k2.Get(key.id); e == nil {
+						wrong = fmt.Sprintf("READABLE %s (no master key at all)", key.kt)
+						break
+					}
+				}
+			}
+		}
 		return strings.Join(outs, " ") + fmt.Sprintf(" || puts=%d secrets=%d scan=%s wrongmaster=%s lock=%s", len(st.puts), len(secrets), scan, wrong, reuse)
 	}
 	// C06: reopen a fresh key manager over the surviving store and probe every key
@@ -779,6 +829,10 @@ func kmsGen(r *Rng, tier string, c06 bool) []string {
 			case c < 4:
 				ops = append(ops, "create "+r.Pick(kts))
 				nk++
+				if r.N(5) == 0 {
+					ops = append(ops, "create ed25519", "box")
+					nk++
+				}
 			case c < 6:
 				ops = append(ops, "createexp "+r.Pick(kts))
 				nk++
